@@ -170,8 +170,94 @@ func rulesC07(c *Ctx) {
 		}
 		c.Check(len(bad) == 0 && len(got) > 0, "C07.chokepoint", typ+"."+field+" used only by "+strings.Join(allowed, ", "), 0, "also used by "+strings.Join(bad, ", "))
 	}
-	expectUsers("Parser", "s", "NewParser", "(*Parser).Scan", "(*Parser).ScanRegex", "(*Parser).Unscan", "(*Parser).peekRune")
-	expectUsers("Parser", "params", "(*Parser).SetParams", "(*Parser).scan", "(*Parser).parseUnaryExpr")
+	_ = expectUsers
+	// the scanner field: only the two wrappers may obtain tokens from it
+	{
+		var bad []string
+		n := 0
+		for _, fb := range p.funcBodies() {
+			fb := fb
+			name := FuncName(fb.Decl)
+			ast.Inspect(fb.Body, func(nd ast.Node) bool {
+				call, ok := nd.(*ast.CallExpr)
+				if !ok {
+					return true
+				}
+				sel, ok := call.Fun.(*ast.SelectorExpr)
+				if !ok {
+					return true
+				}
+				inner, ok := ast.Unparen(sel.X).(*ast.SelectorExpr)
+				if !ok || inner.Sel.Name != "s" {
+					return true
+				}
+				if s := p.Info.Selections[inner]; s == nil || s.Kind() != types.FieldVal || strings.TrimPrefix(p.TypeStr(s.Recv()), "*") != "Parser" {
+					return true
+				}
+				n++
+				if (sel.Sel.Name == "Scan" || sel.Sel.Name == "ScanRegex" || sel.Sel.Name == "scanFunc") && name != "(*Parser).Scan" && name != "(*Parser).ScanRegex" {
+					bad = append(bad, name+" calls p.s."+sel.Sel.Name)
+				}
+				return true
+			})
+			// method values p.s.Scan passed on (p.scan(p.s.Scan))
+			ast.Inspect(fb.Body, func(nd ast.Node) bool {
+				sel, ok := nd.(*ast.SelectorExpr)
+				if !ok || (sel.Sel.Name != "Scan" && sel.Sel.Name != "ScanRegex") {
+					return true
+				}
+				inner, ok := ast.Unparen(sel.X).(*ast.SelectorExpr)
+				if !ok || inner.Sel.Name != "s" {
+					return true
+				}
+				if s := p.Info.Selections[inner]; s == nil || s.Kind() != types.FieldVal || strings.TrimPrefix(p.TypeStr(s.Recv()), "*") != "Parser" {
+					return true
+				}
+				if name != "(*Parser).Scan" && name != "(*Parser).ScanRegex" {
+					bad = append(bad, name+" takes p.s."+sel.Sel.Name)
+				}
+				return true
+			})
+		}
+		sort.Strings(bad)
+		c.Check(len(bad) == 0 && n > 0, "C07.chokepoint", "Parser.s: tokens are taken from the ring only by (*Parser).Scan and (*Parser).ScanRegex", 0, "also: "+strings.Join(bad, "; ")+" — that path sees raw $placeholders")
+	}
+	// the parameter map: replaced as a whole, only by SetParams
+	{
+		var bad []string
+		for _, fb := range p.funcBodies() {
+			fb := fb
+			name := FuncName(fb.Decl)
+			ast.Inspect(fb.Body, func(nd ast.Node) bool {
+				var lhs []ast.Expr
+				switch x := nd.(type) {
+				case *ast.AssignStmt:
+					lhs = x.Lhs
+				case *ast.IncDecStmt:
+					lhs = []ast.Expr{x.X}
+				}
+				for _, l := range lhs {
+					root := ast.Unparen(l)
+					if ix, ok := root.(*ast.IndexExpr); ok {
+						root = ast.Unparen(ix.X)
+					}
+					sel, ok := root.(*ast.SelectorExpr)
+					if !ok || sel.Sel.Name != "params" {
+						continue
+					}
+					if s := p.Info.Selections[sel]; s == nil || s.Kind() != types.FieldVal || strings.TrimPrefix(p.TypeStr(s.Recv()), "*") != "Parser" {
+						continue
+					}
+					if name != "(*Parser).SetParams" && name != "NewParser" {
+						bad = append(bad, name)
+					}
+				}
+				return true
+			})
+		}
+		sort.Strings(bad)
+		c.Check(len(bad) == 0, "C07.chokepoint", "Parser.params written only by (*Parser).SetParams", 0, "also written by "+strings.Join(bad, ", "))
+	}
 
 	// ---- resub / empty / norelex: structure of Parser.scan ----
 	c.Rule("C07.scan", "Parser.scan calls the underlying scan first and tests for BOUNDPARAM on every path (so a pushed-back placeholder is substituted again); it substitutes only under a non-empty name and a successful lookup; token and literal both come from the same bound value; the bound text flows only to the returned literal")
